@@ -31,6 +31,8 @@ Rewrites applied by the extractor are a closed list (reported per unit):
       (the language reference's definition of `for`; used only where the body has `continue`, which Verus rejects in for-loops)
   R9 `const` -> `exec const` with an `ensures` (Verus mode annotation) when the template gives a spec for a const
   R8 restricted visibility `pub(crate)` / `pub(super)` -> `pub` (the unit is a single-file crate)
+  R11 function slice (`slice` directive): the tail of a fn body verified as a fn of its own; the dropped prefix is reported
+  R12 loop annotations dropped when the function under contract has no loop left at all (a loop-free body needs none)
 Macros (format!, format_error!, debug_assert!, ...) are NOT rewritten: the unit prelude defines
 shim macro_rules! for them (R4/R5 of DESIGN.md are realised as macro shims).
 """
@@ -412,6 +414,12 @@ def extract(node, variant, report):
         if node['loops'] or node['desugar'] or node['loopbody'] or node['preloop']:
             loops = rsitems.loops_in(src, it)
             ks = set(node['loops']) | set(node['desugar']) | set(node['loopbody']) | set(node['preloop'])
+            if not loops:
+                # R12: the function has NO loop left (e.g. `while c {..}` became `if c {..}`): loop invariants have nothing to attach to and
+                # nothing needs them -- a loop-free body is decided by its contract alone, so the annotations are dropped (counted) instead
+                # of declaring the anchor lost.  A function that still has loops but fewer than annotated stays ANCHOR-LOST (undecided).
+                ks = set()
+                rule('R12')
             for k in sorted(ks):
                 if k > len(loops):
                     raise AnchorLost('%s: loop %d not found in %s' % (node['file'], k, ' >> '.join(node['path'])))
